@@ -10,75 +10,75 @@ NOTE = ("Trusted base: go/types, x/tools go/ssa v0.29.0, CHA/VTA call graphs (no
 
 CLAIMS = {
  "C01": dict(
-   text="Structural clauses of the wire codec: NumSet/Flag/MailboxAttr reach writeString only on the success edge of their validity test and otherwise set the encoder error (all paths); isValidFlag evaluated on one representative per byte/position class against the RFC 9051 flag grammar (34 rows); every Encoder.Quoted call site validated/constant/single rune; writer and reader literal thresholds agree (the writer's sync/non-sync choice under the capabilities the server advertises is always accepted by acceptLiteral; all size limits are 4096); the decoder's open-literal typestate (flag set only by LiteralReader, cleared only by cancel, tested before every byte read, reader limited to the announced size). Added: mailbox-name transform symmetry (Encoder.Mailbox evaluated on class representatives against the decoder's unconditional modified-UTF-7 inverse) and number-parser domain = target type's range. 'other': these are necessary conditions; byte-for-byte round-trip equality over all strings, UTF-7 and number formatting are not decided.",
+   text="Structural clauses of the wire codec: NumSet/Flag/MailboxAttr reach writeString only on the success edge of their validity test and otherwise set the encoder error (all paths); isValidFlag evaluated on one representative per byte/position class against the RFC 9051 flag grammar (34 rows); every Encoder.Quoted call site validated/constant/single rune; writer and reader literal thresholds agree (the writer's sync/non-sync choice under the capabilities the server advertises is always accepted by acceptLiteral; all size limits are 4096); the decoder's open-literal typestate (flag set only by LiteralReader, cleared only by cancel, tested before every byte read, reader limited to the announced size). Added: mailbox-name transform symmetry (Encoder.Mailbox evaluated on class representatives against the decoder's unconditional modified-UTF-7 inverse) and number-parser domain = target type's range. Round 3: transformer chunking of the UTF-7 coder (also C16); the quoted-string scanner tests unescaped bytes only; buffered-literal limit row incl. the comparison operator on both sides. 'other': these are necessary conditions; byte-for-byte round-trip equality over all strings, UTF-7 and number formatting are not decided.",
    technique="must-pass-through dataflow over go/ssa, finite-domain evaluation of predicate code on the typed AST, who-may-write rules",
    design="§4 C01"),
  "C02": dict(
-   text="Structural clauses of 'client arguments reach the backend intact', for all commands, option structs and handlers: field-read coverage of every option struct below every client command method (195 field instances); keyword round trip between the tables extracted from the client's encoders and the paired server switches (42 token/field pairs incl. search keys); command-name table against the server's dispatch switch; no swallowed parse failure on any failure path of the server's parsers (167 paths); search-key accumulation discipline; operand plumbing from the decoded locals to each session call in wire order with the UID number kind. Added: mailbox-name transform symmetry; one decoded value per option field per path. 'other': necessary conditions checked exhaustively over the code; value equality of arbitrary strings/sets after transport is not decided.",
+   text="Structural clauses of 'client arguments reach the backend intact', for all commands, option structs and handlers: field-read coverage of every option struct below every client command method (195 field instances); keyword round trip between the tables extracted from the client's encoders and the paired server switches (42 token/field pairs incl. search keys); command-name table against the server's dispatch switch; no swallowed parse failure on any failure path of the server's parsers (167 paths); search-key accumulation discipline; operand plumbing from the decoded locals to each session call in wire order with the UID number kind. Added: mailbox-name transform symmetry; one decoded value per option field per path. Round 3: per-token refinement in nested switches; no narrowing conversion of numeric option fields in the client's encoders. 'other': necessary conditions checked exhaustively over the code; value equality of arbitrary strings/sets after transport is not decided.",
    technique="type-directed field-coverage and table-agreement rules over the typed AST, error-discipline and value-provenance dataflow over go/ssa",
    design="§4 C02"),
  "C03": dict(
-   text="Structural clauses of 'responses are decoded into what the backend supplied': field coverage of every response data struct on both sides (158 field/side instances: read by a server writer, stored by a client parser); keyword round trip in the response direction between the server's writers and the paired client switches (STATUS items, ESEARCH items, APPENDUID/COPYUID codes, LIST extended items); token coverage of response names and FETCH item names against the client's parser cases, restricted to what commands the client can issue; '[' consumed before every section parse; provenance of the server's output modes (UTF-8 quoting, legacy SEARCH/RECENT forms). Added: mailbox-name transform symmetry; one-slot response buffers overwritten only when empty or delivered; hand-over counter incremented before the cap() test and the send. 'other': necessary conditions over all fields/tokens/sites; equality of arbitrary nested payloads and literal byte identity are not decided.",
+   text="Structural clauses of 'responses are decoded into what the backend supplied': field coverage of every response data struct on both sides (158 field/side instances: read by a server writer, stored by a client parser); keyword round trip in the response direction between the server's writers and the paired client switches (STATUS items, ESEARCH items, APPENDUID/COPYUID codes, LIST extended items); token coverage of response names and FETCH item names against the client's parser cases, restricted to what commands the client can issue; '[' consumed before every section parse; provenance of the server's output modes (UTF-8 quoting, legacy SEARCH/RECENT forms). Added: mailbox-name transform symmetry; one-slot response buffers overwritten only when empty or delivered; hand-over counter incremented before the cap() test and the send. Round 3: state tests send Authenticated and Selected the same way (capabilities survive SELECT); 64-bit data fields parsed with the 64-bit reader; index sentinels tested only by comparisons separating -1 from every index. 'other': necessary conditions over all fields/tokens/sites; equality of arbitrary nested payloads and literal byte identity are not decided.",
    technique="type-directed field-coverage and table-agreement rules over the typed AST and go/ssa, must-pass-through gates, value-provenance of mode flags",
    design="§4 C03"),
  "C04": dict(
-   text="Structural clauses of server command framing, for all paths: exactly one tagged completion per dispatched command (count of tag-carrying writer calls per path against the nil-ness of the returned error, in readCommand and every self-completing handler, with lemma L1 on the decoder proved on every run); a literal opened on the server decoder is drained, refused only when known synchronising, or refused with the connection terminated, and a refusal puts the decoder in its error state (interprocedural through the CheckBufferedLiteralFunc callback and helper summaries); continuation requests only from literal acceptance/IDLE/AUTHENTICATE after their gates; response-encoder (write lock) pairing and exclusive access to the connection's writer; line discard before completion. Added: no stale loop-carried out-parameter after an unchecked decoder call; the decoder's end-of-line flag is cleared only where input is consumed. 'other': necessary structural conditions, not a proof that the tokenizer never mis-splits bytes.",
+   text="Structural clauses of server command framing, for all paths: exactly one tagged completion per dispatched command (count of tag-carrying writer calls per path against the nil-ness of the returned error, in readCommand and every self-completing handler, with lemma L1 on the decoder proved on every run); a literal opened on the server decoder is drained, refused only when known synchronising, or refused with the connection terminated, and a refusal puts the decoder in its error state (interprocedural through the CheckBufferedLiteralFunc callback and helper summaries); continuation requests only from literal acceptance/IDLE/AUTHENTICATE after their gates; response-encoder (write lock) pairing and exclusive access to the connection's writer; line discard before completion. Added: no stale loop-carried out-parameter after an unchecked decoder call; the decoder's end-of-line flag is cleared only where input is consumed. Round 3: no alternative production after ANY failed literal-attempting decoder method reachable from the server's roots; the server's quoted strings never contain CR, LF or NUL (byte-class table). 'other': necessary structural conditions, not a proof that the tokenizer never mis-splits bytes.",
    technique="path-sensitive must/may dataflow over go/ssa (completion counting x error nil-ness, literal typestate with interprocedural refusal summaries), who-may-call and acquire/release pairing rules",
    design="§4 C04"),
  "C05": dict(
-   text="Structural clauses of the server state machine decided on every run for all paths of all handlers: session calls only in permitted states (abstract interpretation of Conn.state over the 5 states), credentials only after canAuth()==true (truth table evaluated exhaustively), state writes only after the enabling backend call succeeded and only along RFC 9051 transitions, no command read in Logout, unknown pre-auth command ends in BYE, dispatch table exhaustive. The canAuth table also varies TLSConfig set/unset; SASL completion requires done and a nil error. 'other' because these are necessary structural conditions proven statically, not a proof of the whole behaviour (backends are opaque).",
+   text="Structural clauses of the server state machine decided on every run for all paths of all handlers: session calls only in permitted states (abstract interpretation of Conn.state over the 5 states), credentials only after canAuth()==true (truth table evaluated exhaustively), state writes only after the enabling backend call succeeded and only along RFC 9051 transitions, no command read in Logout, unknown pre-auth command ends in BYE, dispatch table exhaustive. The canAuth table also varies TLSConfig set/unset; SASL completion requires done and a nil error. Round 3: direct tests of Conn.state treat Selected as a sub-state of Authenticated. 'other' because these are necessary structural conditions proven statically, not a proof of the whole behaviour (backends are opaque).",
    technique="abstract interpretation of the connection-state field over go/ssa (may-sets, edge refinement, interprocedural) + must-pass-through gate dataflow + exhaustive truth-table evaluation of canAuth",
    design="§4 C05"),
  "C06": dict(
-   text="Structural clauses of server robustness, for all paths: one deferred Session.Close covering every exit (returns and panics) after NewSession succeeded; recover in every server goroutine and deferred connection close/unregister; buffered-literal check installed on every server decoder and refusing every size > 4096 (evaluated); APPEND limit dominating accept/read/hand-over of the literal; every input-driven recursion cycle of the call graph depth-bounded (Decoder.List's guard checked, or a capped strictly increasing counter proven around every cycle); IDLE goroutine release and buffered result channel; wire-supplied integers never summed unguarded into a slice bound and compared with a length before use as a bound; every FETCH response writer closed on all paths (interprocedural hand-over summaries). Added: bufio unread typestate (mustUnreadByte only directly after a successful byte read). 'other': these are necessary conditions; absence of every panic for every byte stream is not decided.",
+   text="Structural clauses of server robustness, for all paths: one deferred Session.Close covering every exit (returns and panics) after NewSession succeeded; recover in every server goroutine and deferred connection close/unregister; buffered-literal check installed on every server decoder and refusing every size > 4096 (evaluated); APPEND limit dominating accept/read/hand-over of the literal; every input-driven recursion cycle of the call graph depth-bounded (Decoder.List's guard checked, or a capped strictly increasing counter proven around every cycle); IDLE goroutine release and buffered result channel; wire-supplied integers never summed unguarded into a slice bound and compared with a length before use as a bound; every FETCH response writer closed on all paths (interprocedural hand-over summaries). Added: bufio unread typestate (mustUnreadByte only directly after a successful byte read). Round 3: no lock-order cycle on the serving goroutine; every round of a server-side parsing loop consumes input or leaves the loop (table of non-consuming decoder methods computed). 'other': these are necessary conditions; absence of every panic for every byte stream is not decided.",
    technique="call-graph SCC analysis with ranking-function recognition, must-dataflow pairing rules (defer/close/recover), finite-domain evaluation of the literal cap, taint of wire-sourced integer fields into slice bounds",
    design="§4 C06"),
  "C08": dict(
-   text="Structural clauses of view consistency: Conn.writeExpunge unreachable from the FETCH/STORE/SEARCH handlers through every Session implementation of the module (call graph VTA + CHA for module interfaces); Conn.poll's permission evaluated for all 36 dispatched labels (false exactly for FETCH/STORE/SEARCH) and consistent between backend and update writer, polled with the dispatched name; message-list mutations paired with the tracker update under the mailbox lock; one delivery channel per expunge for every session method; complete fan-out in the tracker; FETCH responses of the backend carry EncodeSeqNum's result tested non-zero; a session registers with the mailbox tracker under the mailbox lock in the critical section that takes its EXISTS snapshot; the tracker queue is append-only while EncodeSeqNum matches queued counts by equality. Added: mailbox-view and client-view sequence numbers are not mixed (tracker Queue* arguments, SeqSet probes). 'other': necessary conditions; that the sequence numbers themselves are right is C07's value-level arithmetic and is not decided.",
+   text="Structural clauses of view consistency: Conn.writeExpunge unreachable from the FETCH/STORE/SEARCH handlers through every Session implementation of the module (call graph VTA + CHA for module interfaces); Conn.poll's permission evaluated for all 36 dispatched labels (false exactly for FETCH/STORE/SEARCH) and consistent between backend and update writer, polled with the dispatched name; message-list mutations paired with the tracker update under the mailbox lock; one delivery channel per expunge for every session method; complete fan-out in the tracker; FETCH responses of the backend carry EncodeSeqNum's result tested non-zero; a session registers with the mailbox tracker under the mailbox lock in the critical section that takes its EXISTS snapshot; the tracker queue is append-only while EncodeSeqNum matches queued counts by equality. Added: mailbox-view and client-view sequence numbers are not mixed (tracker Queue* arguments, SeqSet probes). Round 3: removals of one pass announced in descending index order or renumbered; the live tracker queue never aliases the slice handed to the writer; index sentinels (Poll's stopIndex) tested soundly. 'other': necessary conditions; that the sequence numbers themselves are right is C07's value-level arithmetic and is not decided.",
    technique="absence-of-reachability over the module call graph, exhaustive finite-domain evaluation of poll, pairing and control-dependence rules over go/ssa",
    design="§4 C08"),
  "C09": dict(
-   text="Structural clauses of the in-memory backend's mailbox semantics: UID allocation (uidNext written only by the constructor and a locked increment-by-one in appendBytes; the new message gets the pre-increment value); UIDVALIDITY (prevUidValidity only incremented, in Create, and handed to NewMailbox); every flag-map lookup/insert/delete keyed through canonicalFlag (8 sites); wire-supplied integers compared with a length before being used as slice bounds and never summed unguarded; the key inserted into User.mailboxes is the value whose absence was checked and the mailbox's own name. Added: sequence-number views as in C08; COPYUID provenance of source and destination sets. 'other': necessary conditions only; agreement of SEARCH/FETCH/LIST/STATUS results with a reference model is value-level and not decided.",
+   text="Structural clauses of the in-memory backend's mailbox semantics: UID allocation (uidNext written only by the constructor and a locked increment-by-one in appendBytes; the new message gets the pre-increment value); UIDVALIDITY (prevUidValidity only incremented, in Create, and handed to NewMailbox); every flag-map lookup/insert/delete keyed through canonicalFlag (8 sites); wire-supplied integers compared with a length before being used as slice bounds and never summed unguarded; the key inserted into User.mailboxes is the value whose absence was checked and the mailbox's own name. Added: sequence-number views as in C08; COPYUID provenance of source and destination sets. Round 3: recursive walks of SearchCriteria descend into Not and Or alike; expunge order as in C08; a per-round verdict that a loop overwrites is branched on before the next round (LIST 'any pattern'). 'other': necessary conditions only; agreement of SEARCH/FETCH/LIST/STATUS results with a reference model is value-level and not decided.",
    technique="who-may-write and value-shape rules over go/ssa, lockset facts from the lock analysis, wire-integer taint",
    design="§4 C09"),
  "C10": dict(
-   text="Structural clauses behind 'every client command terminates': the reader goroutine's deferred teardown (close(decCh); recover + closeWithError with a provably non-nil error) is registered before the read loop; closeWithError closes the connection, takes the whole pending list and completes each command on every path; removal-by-tag is paired with exactly one completion incl. the deferred error completion; every streaming command's channel is closed by completeCommand and done is sent-then-closed unconditionally; a failed flush closes the client; completion cancels continuation requests and Wait callers honour the error; commands are initialised before publication. Added: deferred completion tests the named error result; encoder-lock release or hand-over on every path (holder must reach the caller; Close ends it on every path); hand-over counter before cap() test and send. 'other': necessary conditions for termination decided on all paths; liveness under each fault offset and the caller's side of the streaming contract are not decided.",
+   text="Structural clauses behind 'every client command terminates': the reader goroutine's deferred teardown (close(decCh); recover + closeWithError with a provably non-nil error) is registered before the read loop; closeWithError closes the connection, takes the whole pending list and completes each command on every path; removal-by-tag is paired with exactly one completion incl. the deferred error completion; every streaming command's channel is closed by completeCommand and done is sent-then-closed unconditionally; a failed flush closes the client; completion cancels continuation requests and Wait callers honour the error; commands are initialised before publication. Added: deferred completion tests the named error result; encoder-lock release or hand-over on every path (holder must reach the caller; Close ends it on every path); hand-over counter before cap() test and send. Round 3: no blocking channel operation while Client.mutex is held; merged sub-command errors keep the first; the flush-failure close post-dominates the error. 'other': necessary conditions for termination decided on all paths; liveness under each fault offset and the caller's side of the streaming contract are not decided.",
    technique="must-dataflow over go/ssa (deferred teardown, exit coverage, completion counting), type-directed exhaustiveness of channel closing",
    design="§4 C10"),
  "C11": dict(
-   text="Structural clauses of client robustness: every input-driven recursion cycle of the client's call graph is depth-bounded (Decoder.List's checked guard or a capped strictly increasing counter proven around every cycle); numbers read from the wire reach result sets only after a non-zero test; every parsed number set is refused when dynamic; the reader goroutine recovers and tears down; enumeration loops over unsigned ranges cannot wrap at 2^32-1; nil-able command fields are dereferenced in reader-run code only after a non-nil test (their own or the selecting matcher's); numbers parsed from the wire are never narrowed below their parse width; message numbers and UIDs from the wire reach the 7 delivery sinks (FETCH seqnum/UID, EXPUNGE, SORT, THREAD, APPENDUID) only through a non-zero test. Added: bufio unread typestate; no allocation sized by an announced number. 'other': necessary conditions over all cycles/sites; absence of every other panic in accessors and super-linear cost are not decided.",
+   text="Structural clauses of client robustness: every input-driven recursion cycle of the client's call graph is depth-bounded (Decoder.List's checked guard or a capped strictly increasing counter proven around every cycle); numbers read from the wire reach result sets only after a non-zero test; every parsed number set is refused when dynamic; the reader goroutine recovers and tears down; enumeration loops over unsigned ranges cannot wrap at 2^32-1; nil-able command fields are dereferenced in reader-run code only after a non-nil test (their own or the selecting matcher's); numbers parsed from the wire are never narrowed below their parse width; message numbers and UIDs from the wire reach the 7 delivery sinks (FETCH seqnum/UID, EXPUNGE, SORT, THREAD, APPENDUID) only through a non-zero test. Added: bufio unread typestate; no allocation sized by an announced number. Round 3: listDepth written only in Decoder.List; every round of a parsing loop consumes input or leaves it; interface fields of delivered data that can hold the nil interface (NIL on the wire) are called through only after a non-nil test (found and fixed T9). 'other': necessary conditions over all cycles/sites; absence of every other panic in accessors and super-linear cost are not decided.",
    technique="call-graph SCC analysis with ranking-function recognition, wire-value taint with dominating-test rules over go/ssa, loop-shape (integer wrap) rule",
    design="§4 C11"),
  "C12": dict(
-   text="Structural clauses of routing and mirrored state: mirror agreement of the mailbox summary across SelectedMailbox / SelectData / UnilateralDataMailbox (same value → same-named fields, incl. view-to-view copies); every write of the client's connection state classified as an RFC 9051 transition (success edge of the right command types via type-switch reachability, greeting per status type, [CLOSED], teardown); response→command routing table extracted from the dispatch switches, generic instantiations and type assertions and compared with the RFC table (23 routes); removal-from-pending paired with exactly one completion; capability invalidation only on success; keyed response matchers accept a command only on a positive relation to the response; the guards of the mailbox-summary mirror hold for every conformant response (evaluated over all orderings of count and number); command identity is compared on one representation per command (dynamic-type flow). Added: encoder-lock release on every path (a refused command must not block the others); pending-command and continuation-request queues keep issue order. 'other': necessary conditions; full transcript-vs-reference equality is not decided.",
+   text="Structural clauses of routing and mirrored state: mirror agreement of the mailbox summary across SelectedMailbox / SelectData / UnilateralDataMailbox (same value → same-named fields, incl. view-to-view copies); every write of the client's connection state classified as an RFC 9051 transition (success edge of the right command types via type-switch reachability, greeting per status type, [CLOSED], teardown); response→command routing table extracted from the dispatch switches, generic instantiations and type assertions and compared with the RFC table (23 routes); removal-from-pending paired with exactly one completion; capability invalidation only on success; keyed response matchers accept a command only on a positive relation to the response; the guards of the mailbox-summary mirror hold for every conformant response (evaluated over all orderings of count and number); command identity is compared on one representation per command (dynamic-type flow). Added: encoder-lock release on every path (a refused command must not block the others); pending-command and continuation-request queues keep issue order. Round 3: parser success returns agree on returning the decoder-filled value (ESEARCH correlator); a recording matcher is a test-and-set; delivery into a pending command is not control dependent on the mirrored state. 'other': necessary conditions; full transcript-vs-reference equality is not decided.",
    technique="value-identity (mirror) dataflow, typed-AST table extraction, must-facts and type-switch reachability over go/ssa",
    design="§4 C12"),
  "C13": dict(
-   text="Static lockset over every access (reads, writes, map updates) to the mutex-guarded fields of Client from every goroutine root (all exported entry points, the reader goroutine, every go statement), with interprocedural entry sets and lock-transfer summaries; publication rule (no unlocked store through a command after it enters the pending list); command-encoder (encoder lock) pairing incl. ownership transfer to AppendCommand/idleCommand; removal-from-pending paired with exactly one completion on every path; buffered done channel; tag counter incremented only under the mutex. Added: encoder hand-over counts only if the holder reaches the caller, Close ends the encoder on every path; pending list taken in one critical section; every mutex balanced on every exit. 'other': data-race freedom is decided for the mutex-guarded state by a sound-by-construction must-lockset; fields synchronised by channel hand-off (decErr, greetingErr, bw) and liveness are not decided.",
+   text="Static lockset over every access (reads, writes, map updates) to the mutex-guarded fields of Client from every goroutine root (all exported entry points, the reader goroutine, every go statement), with interprocedural entry sets and lock-transfer summaries; publication rule (no unlocked store through a command after it enters the pending list); command-encoder (encoder lock) pairing incl. ownership transfer to AppendCommand/idleCommand; removal-from-pending paired with exactly one completion on every path; buffered done channel; tag counter incremented only under the mutex. Added: encoder hand-over counts only if the holder reaches the caller, Close ends the encoder on every path; pending list taken in one critical section; every mutex balanced on every exit. Round 3: no blocking channel operation under Client.mutex; failed flush closes the client; continuation request registered before the provoking bytes are flushed; references loaded from guarded map/slice fields used only under the lock. 'other': data-race freedom is decided for the mutex-guarded state by a sound-by-construction must-lockset; fields synchronised by channel hand-off (decErr, greetingErr, bw) and liveness are not decided.",
    technique="interprocedural must-lockset analysis over go/ssa with access paths and lock-effect summaries; publication and pairing dataflow rules",
    design="§4 C13"),
  "C14": dict(
-   text="Lock-order graph over all mutex classes of imapserver+imapmemserver built from every acquisition reachable from the serving and IDLE goroutines (callback-aware: locks a callee holds when it invokes a passed closure are attributed to the call site; lock-transfer summaries for the response-encoder wrappers) and checked acyclic including same-class nesting; must-lockset for every field laid out under a mutex (struct-layout convention + 'protected by' comments) with the writer-locks discipline and connection-confinement for Conn fields; …Locked call discipline; no blocking channel operation under mailbox/tracker/user locks. Added: every mutex taken in a function is released on every exit or held at all exits (transfer wrapper). 'other': deadlock freedom by lock order and race freedom for guarded fields are decided structurally; 'every command completes' as liveness is not.",
+   text="Lock-order graph over all mutex classes of imapserver+imapmemserver built from every acquisition reachable from the serving and IDLE goroutines (callback-aware: locks a callee holds when it invokes a passed closure are attributed to the call site; lock-transfer summaries for the response-encoder wrappers) and checked acyclic including same-class nesting; must-lockset for every field laid out under a mutex (struct-layout convention + 'protected by' comments) with the writer-locks discipline and connection-confinement for Conn fields; …Locked call discipline; no blocking channel operation under mailbox/tracker/user locks. Added: every mutex taken in a function is released on every exit or held at all exits (transfer wrapper). Round 3: a reference loaded from a guarded map/slice field is used only while the lock is held (ownership transfer exempt). 'other': deadlock freedom by lock order and race freedom for guarded fields are decided structurally; 'every command completes' as liveness is not.",
    technique="interprocedural lockset and lock-order analysis over go/ssa + VTA/CHA call graph, with higher-order (callback) summaries",
    design="§4 C14"),
  "C15": dict(
-   text="Structural clauses of the number-set types: no `n <= bound; n++` enumeration loop over an unsigned variable with a run-time bound can wrap at the type's maximum and no loop limit is an unsigned sum bound+k; every unsafe.Pointer cast between the public SeqSet/UIDSet/SeqRange/UIDRange/[]UID types and the internal imapnum ones is between layout-identical types (field names in order, offsets, sizes under the target's types.Sizes; 6 casts); every public set method delegates to the same-named internal method with its parameters in order, unconditionally except for the SearchRes marker (14 methods). Added: positional accumulators need an in-loop bound. 'other': preconditions of the set behaviour; the set algebra, canonical form and parse/print laws are value-level and not decided.",
+   text="Structural clauses of the number-set types: no `n <= bound; n++` enumeration loop over an unsigned variable with a run-time bound can wrap at the type's maximum and no loop limit is an unsigned sum bound+k; every unsafe.Pointer cast between the public SeqSet/UIDSet/SeqRange/UIDRange/[]UID types and the internal imapnum ones is between layout-identical types (field names in order, offsets, sizes under the target's types.Sizes; 6 casts); every public set method delegates to the same-named internal method with its parameters in order, unconditionally except for the SearchRes marker (14 methods). Added: positional accumulators need an in-loop bound. Round 3: the set's storage is written only by the canonicalising primitives; enumerators report ok=false only with a witness; IsSearchRes consults the marker's identity. 'other': preconditions of the set behaviour; the set algebra, canonical form and parse/print laws are value-level and not decided.",
    technique="type-layout comparison with go/types Sizes, loop-shape (integer wrap) rule and argument-provenance rule over go/ssa",
    design="§4 C15"),
  "C16": dict(
-   text="Only the chunking clauses of the modified UTF-7 transformers are decided: ErrShortSrc on a non-final chunk that ends inside a unit, a destination-space check (returning ErrShortDst) before every write into dst, and nSrc advanced only after that check — for both Transform methods; plus sibling agreement: every comparison against utf7.min/utf7.max in encoder and decoder denotes the same closed interval. These are the structural necessary conditions of 'regardless of how the transformer's buffers are chunked'. Added: the wire encoder applies the transform to mailbox names exactly where the decoder inverts it (evaluated on class representatives). 'other' and deliberately narrow: losslessness, the decoder's rejection set, valid-UTF-8-only output and panic-freedom of the base64/UTF-16 arithmetic are value-level and NOT decided.",
+   text="Only the chunking clauses of the modified UTF-7 transformers are decided: ErrShortSrc on a non-final chunk that ends inside a unit, a destination-space check (returning ErrShortDst) before every write into dst, and nSrc advanced only after that check — for both Transform methods; plus sibling agreement: every comparison against utf7.min/utf7.max in encoder and decoder denotes the same closed interval. These are the structural necessary conditions of 'regardless of how the transformer's buffers are chunked'. Added: the wire encoder applies the transform to mailbox names exactly where the decoder inverts it (evaluated on class representatives). Round 3: the space budget counts every byte written; transformer state reset at the end of a call only at EOF; no stateful transformer in a package-level variable. 'other' and deliberately narrow: losslessness, the decoder's rejection set, valid-UTF-8-only output and panic-freedom of the base64/UTF-16 arithmetic are value-level and NOT decided.",
    technique="typed-AST ordering rules (check-before-write, check-before-advance) on the transform.Transformer implementations",
    design="§4 C16"),
  "C17": dict(
-   text="STARTTLS boundary clauses on both sides, for all paths: after the OK the server re-seats br and bw on a stream derived only from tls.Server (value-flow through wrapReadWriter, whose body is checked) and installs the TLS conn, holding the write lock across the switch; the client re-seats br/bw on tls.Client in upgradeStartTLS, which is called only after the CRLF of the tagged OK of a successful STARTTLS command; NewStartTLS returns a client only on State()==NotAuthenticated and closes it otherwise; AUTH=/LOGINDISABLED/STARTTLS advertisement tied to canAuth/canStartTLS edges and canStartTLS's truth table (2x5x2) evaluated exhaustively. Added: canAuth truth table incl. TLSConfig set/unset; PREAUTH refusal checked for every function that calls startTLS and returns a client; capabilities computed only after the state left None. 'other': the re-seating is the structural necessary condition for 'early plaintext is never parsed as protected data'; crypto/tls itself is trusted.",
+   text="STARTTLS boundary clauses on both sides, for all paths: after the OK the server re-seats br and bw on a stream derived only from tls.Server (value-flow through wrapReadWriter, whose body is checked) and installs the TLS conn, holding the write lock across the switch; the client re-seats br/bw on tls.Client in upgradeStartTLS, which is called only after the CRLF of the tagged OK of a successful STARTTLS command; NewStartTLS returns a client only on State()==NotAuthenticated and closes it otherwise; AUTH=/LOGINDISABLED/STARTTLS advertisement tied to canAuth/canStartTLS edges and canStartTLS's truth table (2x5x2) evaluated exhaustively. Added: canAuth truth table incl. TLSConfig set/unset; PREAUTH refusal checked for every function that calls startTLS and returns a client; capabilities computed only after the state left None. Round 3: the PREAUTH/state test must follow the upgrade; a completed STARTTLS invalidates the capabilities learnt in plaintext. 'other': the re-seating is the structural necessary condition for 'early plaintext is never parsed as protected data'; crypto/tls itself is trusted.",
    technique="value-flow (derives-only-from) and must-pass-through dataflow over go/ssa, exhaustive finite-domain evaluation of canStartTLS",
    design="§4 C17"),
  "C18": dict(
-   text="Client syntax legality clauses: both literal-synchronisation decisions evaluated over every capability subset x sizes {4096,4097} against RFC 7888; Encoder.Literal's '+' marker and the CRLF-flush + Wait-success gate before the payload writer (path-state analysis); provenance of the three encoder mode flags from the right CapSet.Has queries; CapSet.Has implication table (96 rows); validQuoted per-byte table (all 256 bytes x UTF-8 mode, lengths 4096/4097); every Encoder.Quoted call site validated/constant/single rune; continuation-request cancellation on completion. Added: literal-limit row with octets != characters; UNAUTHENTICATE resets Client.enabled. 'other': exhaustive over the finite abstract domains and all call sites; timing of network writes is not decided.",
+   text="Client syntax legality clauses: both literal-synchronisation decisions evaluated over every capability subset x sizes {4096,4097} against RFC 7888; Encoder.Literal's '+' marker and the CRLF-flush + Wait-success gate before the payload writer (path-state analysis); provenance of the three encoder mode flags from the right CapSet.Has queries; CapSet.Has implication table (96 rows); validQuoted per-byte table (all 256 bytes x UTF-8 mode, lengths 4096/4097); every Encoder.Quoted call site validated/constant/single rune; continuation-request cancellation on completion. Added: literal-limit row with octets != characters; UNAUTHENTICATE resets Client.enabled. Round 3: capability provenance through helper-returned structs; validity-scan position classes (first/middle/last byte); cached capabilities invalidated whenever the server may have changed them and setCaps stores what it is given. 'other': exhaustive over the finite abstract domains and all call sites; timing of network writes is not decided.",
    technique="exhaustive finite-domain evaluation of decision code on the typed AST, path-state dataflow and value-provenance rules over go/ssa",
    design="§4 C18"),
  "C19": dict(
-   text="SearchCriteria.And is evaluated as an abstract function over order types (each zero-means-unset scalar touched only through comparisons/zero tests/copies, so one representative per ordering decides all values): 6 fields x 9 orderings exhaustive; every field merged; list fields are same-field concatenations; the server's SEARCH parser appends list keys to their own field and folds scalar keys only through And. Added: conjunct lists only grow (no element modified in place); no boolean carried around a criteria-list loop in the backend matcher. 'other': the evaluation is exhaustive over the abstract domain and the structural rules cover all sites, but a backend's matcher is outside the analysis.",
+   text="SearchCriteria.And is evaluated as an abstract function over order types (each zero-means-unset scalar touched only through comparisons/zero tests/copies, so one representative per ordering decides all values): 6 fields x 9 orderings exhaustive; every field merged; list fields are same-field concatenations; the server's SEARCH parser appends list keys to their own field and folds scalar keys only through And. Added: conjunct lists only grow (no element modified in place); no boolean carried around a criteria-list loop in the backend matcher. Round 3: every element of a list criterion can reject on its own in the backend matcher (in-loop exits of helpers must carry the value on which the matcher rejects); overwritten per-round verdicts. 'other': the evaluation is exhaustive over the abstract domain and the structural rules cover all sites, and the in-memory backend's matcher is checked structurally only (conjunctive shape, per-element rejection); third-party backends are outside the analysis.",
    technique="finite-domain abstract evaluation of And over order types on the typed AST + AST/SSA who-may-write rules on SearchCriteria fields",
    design="§4 C19"),
 }
